@@ -23,6 +23,15 @@ CLAIMED['C15'] = dict(
    technique="Coq proof over a hand-written model of encoding_utils.py + differential correspondence + spec oracle",
    design_ref="5/C15")
 
+CLAIMED['C13'] = dict(
+   text="Kernel-checked theorem over all tables, both flags and all well-formed multi-fragment strings: two strings whose fragments agree after deleting every [nop] decode identically (result, error, attribution) - props/C13.v, with the single-insertion corollary for every position. Decoder model (decoder.py, grammar_rules.py, mol_graph.py, writer) tied to the code by exact-output correspondence on original and decorated strings; oracle = equality of the implementation's two answers, plus the selfies_to_encoding padding corollary.",
+   technique="Coq proof over the decoder model (tokeniser filters [nop] before anything else) + differential correspondence + metamorphic oracle on the implementation",
+   design_ref="5/C13")
+CLAIMED['C18'] = dict(
+   text="Kernel-checked theorems (props/C18.v): without legacy symbols the flag changes nothing; with the flag the result equals decoding the string with every symbol replaced by modernize_symbol's image; the generated update table equals the hand-written documented table; every legacy table symbol is rejected with DecoderError whenever the derivation reaches it without the flag. Model of compatibility.py tied by exact-output correspondence for both flag values; oracle = implementation with flag vs implementation on an independently modernised string.",
+   technique="Coq proof over decoder + compatibility model, generated update table + differential correspondence + independent moderniser oracle",
+   design_ref="5/C18")
+
 PENDING = {}
 for i in range(1, 20):
     pid = 'C%02d' % i
